@@ -248,6 +248,7 @@ class Machine:
     self.counter = 0
     self.wrappers = {}
     self.instances = {}
+    self.constants_defined = {}
     self.mutate = mutate
     self.trace = []
     self.calls = []      # per top-level/inner 'call' op: context for the P_impl predicates
@@ -551,6 +552,7 @@ class Machine:
       self.emit(bool(gin.config_is_locked()))
     elif k == 'constant':
       gin.constant(op[1], self.plain(op[2]))
+      self.constants_defined[op[1]] = self.canon(self.plain(op[2]))
       self.emit(None)
     elif k == 'interactive':
       with gin.config.interactive_mode():
@@ -581,6 +583,18 @@ class Machine:
       self.emit([list(x) for x in self.log])
     else:
       raise AssertionError(op)
+
+  def constant_fails(self):
+    """what consumers did to the values they received has not changed any constant"""
+    fails = []
+    for name, want in self.constants_defined.items():
+      try:
+        got = self.canon(self.cfg._CONSTANTS[name])  # pylint: disable=protected-access
+      except Exception:  # pylint: disable=broad-except
+        continue          # cleared
+      if not C.strict_eq(got, want):
+        fails.append(('constant-changed-by-consumer', 'constant %r was defined as %r; after the calls it is %r' % (name, want, got)))
+    return fails[:1]
 
   def readback_fails(self):
     """independent of gin's own bookkeeping: after every bind that did not raise, the store holds, under the scope and
